@@ -33,3 +33,24 @@ class Outer:
         self.inner.n += k
         self.inner.r += r
         self.inner._v = None
+
+
+class Counter:
+    """The helper changes an input of the cache; its only caller invalidates afterwards."""
+
+    def __init__(self):
+        self.k = 0
+        self._twice = None
+
+    def _bump(self):
+        self.k += 1
+
+    def step(self):
+        self._bump()
+        self._twice = None
+
+    @property
+    def twice(self):
+        if self._twice is None:
+            self._twice = 2 * self.k
+        return self._twice
